@@ -132,6 +132,13 @@ type Stats struct {
 
 // Check replays the trace of a workload that ran in dir with the given segment size.
 func Check(calls []Sys, dir string, segSize int) (*Violation, Stats) {
+	return CheckOwn(calls, dir, segSize, nil)
+}
+
+// CheckOwn is Check restricted to the invariants whose signature own accepts (nil = all): a
+// violation of another invariant does not end the replay, so that each property sees its own verdict
+// even when an earlier event already broke somebody else's.
+func CheckOwn(calls []Sys, dir string, segSize int, own func(sig string) bool) (*Violation, Stats) {
 	var st Stats
 	files := map[string]*fileState{}
 	get := func(p string) *fileState {
@@ -153,6 +160,9 @@ func Check(calls []Sys, dir string, segSize int) (*Violation, Stats) {
 	markerTid := ""
 	fsyncOrd := 0
 	vio := func(sig, format string, a ...any) *Violation {
+		if own != nil && !own(sig) {
+			return nil
+		}
 		return &Violation{Sig: sig, Msg: fmt.Sprintf(format, a...)}
 	}
 	for _, c := range calls {
@@ -196,7 +206,9 @@ func Check(calls []Sys, dir string, segSize int) (*Violation, Stats) {
 			if curPhase == "ok" {
 				if len(pendingUnlink) > 0 {
 					for p, ln := range pendingUnlink {
-						return vio("unlink-without-dirsync", "step %s %s returned but the unlink of %s (trace line %d) was not followed by an fsync of the directory", step, curOp, filepath.Base(p), ln), st
+						if v := vio("unlink-without-dirsync", "step %s %s returned but the unlink of %s (trace line %d) was not followed by an fsync of the directory", step, curOp, filepath.Base(p), ln); v != nil {
+							return v, st
+						}
 					}
 				}
 			}
@@ -207,15 +219,21 @@ func Check(calls []Sys, dir string, segSize int) (*Violation, Stats) {
 						continue
 					}
 					if len(fs.lost) > 0 {
-						return vio("ack-after-failed-fsync-without-rewrite", "step %s StoreLogs returned nil although bytes %v of %s were written before an fsync of that file failed and have not been written again: a failed fsync leaves the pages marked clean, so the later successful fsync does not cover them", step, fs.lost, filepath.Base(p)), st
+						if v := vio("ack-after-failed-fsync-without-rewrite", "step %s StoreLogs returned nil although bytes %v of %s were written before an fsync of that file failed and have not been written again: a failed fsync leaves the pages marked clean, so the later successful fsync does not cover them", step, fs.lost, filepath.Base(p)); v != nil {
+							return v, st
+						}
 					}
 					if fs.dirty && fs.residue && !fs.writtenSince {
 						st.AckWithResidue++
 					} else if fs.dirty {
-						return vio("ack-before-fsync", "step %s StoreLogs returned nil while %s has bytes written but not fsynced", step, filepath.Base(p)), st
+						if v := vio("ack-before-fsync", "step %s StoreLogs returned nil while %s has bytes written but not fsynced", step, filepath.Base(p)); v != nil {
+							return v, st
+						}
 					}
 					if fs.writtenSince && !fs.entryDurable {
-						return vio("ack-before-dirsync", "step %s StoreLogs returned nil after writing to %s whose directory entry was never made durable (created by WAL instance #%d, written by instance #%d, no fsync of the directory since its creation)", step, filepath.Base(p), fs.createdBy, instance), st
+						if v := vio("ack-before-dirsync", "step %s StoreLogs returned nil after writing to %s whose directory entry was never made durable (created by WAL instance #%d, written by instance #%d, no fsync of the directory since its creation)", step, filepath.Base(p), fs.createdBy, instance); v != nil {
+							return v, st
+						}
 					}
 					if fs.writtenSince && fs.createdBy != instance {
 						st.CommitIntoOpenedFile = true
@@ -227,14 +245,23 @@ func Check(calls []Sys, dir string, segSize int) (*Violation, Stats) {
 				// commit frames it wrote must have been fsynced by then, like any other commit
 				for p, fs := range files {
 					if strings.HasSuffix(p, ".wal") && fs.exists && fs.dirty && !fs.residue {
-						return vio("truncation-ack-before-fsync", "step %s DeleteRange returned nil while %s has bytes written but not fsynced", step, filepath.Base(p)), st
+						if v := vio("truncation-ack-before-fsync", "step %s DeleteRange returned nil while %s has bytes written but not fsynced", step, filepath.Base(p)); v != nil {
+							return v, st
+						}
 					}
 				}
 			}
 			if curOp == "Set" && curPhase == "ok" {
 				st.SetOK++
+				if !renameDurable {
+					if v := vio("set-before-rename-durable", "step %s Set returned nil but the rename of wal-meta.db.tmp to wal-meta.db has not been followed by an fsync of the directory: after a power loss the database - and this value - may be gone", step); v != nil {
+						return v, st
+					}
+				}
 				if fs := files[metaFinal]; fs != nil && fs.dirty {
-					return vio("set-before-fsync", "step %s Set returned nil while wal-meta.db has un-synced writes", step), st
+					if v := vio("set-before-fsync", "step %s Set returned nil while wal-meta.db has un-synced writes", step); v != nil {
+						return v, st
+					}
 				}
 			}
 		case "openat":
@@ -255,7 +282,9 @@ func Check(calls []Sys, dir string, segSize int) (*Violation, Stats) {
 			if creat && !fs.exists {
 				// a creating open
 				if p == metaFinal {
-					return vio("meta-created-in-place", "wal-meta.db was created by openat(O_CREAT) under its final name instead of tmp+rename (trace line %d)", c.Line), st
+					if v := vio("meta-created-in-place", "wal-meta.db was created by openat(O_CREAT) under its final name instead of tmp+rename (trace line %d)", c.Line); v != nil {
+						return v, st
+					}
 				}
 				fs.exists = true
 				fs.entryDurable = false
@@ -265,10 +294,14 @@ func Check(calls []Sys, dir string, segSize int) (*Violation, Stats) {
 				fs.falloc = -1
 				if strings.HasSuffix(p, ".wal") {
 					if !excl {
-						return vio("segment-not-exclusive", "segment file %s created without O_EXCL (trace line %d)", filepath.Base(p), c.Line), st
+						if v := vio("segment-not-exclusive", "segment file %s created without O_EXCL (trace line %d)", filepath.Base(p), c.Line); v != nil {
+							return v, st
+						}
 					}
 					if !renameDurable {
-						return vio("meta-rename-not-durable", "segment file %s created before the directory was fsynced after renaming wal-meta.db into place", filepath.Base(p)), st
+						if v := vio("meta-rename-not-durable", "segment file %s created before the directory was fsynced after renaming wal-meta.db into place", filepath.Base(p)); v != nil {
+							return v, st
+						}
 					}
 					segCreatedSinceRename = true
 				}
@@ -294,7 +327,9 @@ func Check(calls []Sys, dir string, segSize int) (*Violation, Stats) {
 			fs := get(m[2])
 			if strings.HasSuffix(m[2], ".wal") {
 				if !fs.everWritten && fs.createdBy > 0 && fs.falloc != int64(segSize) {
-					return vio("segment-not-preallocated", "first write to %s but it was not preallocated to the requested %d bytes (fallocate length %d)", filepath.Base(m[2]), segSize, fs.falloc), st
+					if v := vio("segment-not-preallocated", "first write to %s but it was not preallocated to the requested %d bytes (fallocate length %d)", filepath.Base(m[2]), segSize, fs.falloc); v != nil {
+						return v, st
+					}
 				}
 				if !fs.everWritten && fs.createdBy == instance {
 					st.FirstCommitNewSegment = true
@@ -387,10 +422,14 @@ func Check(calls []Sys, dir string, segSize int) (*Violation, Stats) {
 			from, to := qs[0][1], qs[1][1]
 			if to == metaFinal {
 				if from != metaTmp {
-					return vio("meta-rename-source", "wal-meta.db renamed from %s", from), st
+					if v := vio("meta-rename-source", "wal-meta.db renamed from %s", from); v != nil {
+						return v, st
+					}
 				}
 				if fs := files[from]; fs != nil && fs.dirty {
-					return vio("meta-renamed-dirty", "wal-meta.db.tmp renamed into place with un-synced writes"), st
+					if v := vio("meta-renamed-dirty", "wal-meta.db.tmp renamed into place with un-synced writes"); v != nil {
+						return v, st
+					}
 				}
 				if fs := files[from]; fs != nil {
 					files[to] = fs
